@@ -132,9 +132,15 @@ CLAIMED = {
         "mirsym on the MIR of the harper-ls binary: the real DocumentState::generate_diagnostics and generate_code_actions "
         "(range_to_span, with_len, the priority sort, the overlap filter, get_token_at_char_index) on documents of 3-4 (5) fully "
         "symbolic characters with a stub linter reporting 2 (3) lints with symbolic spans and priorities: every lint is published "
-        "and, at the LSP position of every character, fixes are offered for exactly the lints containing it (overlapping ones too).",
-        "Outside the claim: lint_to_code_actions' edit construction (Url, HashMap, serde_json) so TextEdit.new_text per suggestion "
-        "kind is not solver-checked; ignore lists; the server loop and the language front-ends of Backend::update_document.",
+        "and, at the LSP position of every character, fixes are offered for exactly the lints containing it (overlapping ones too). "
+        "The quick-fix edit itself: the per-suggestion closure of diagnostics::lint_to_code_actions (span_to_range, get_content_string, "
+        "format!, TextEdit construction) on documents of 3-4 (5) fully symbolic characters, a lint with any span (empty included) and a "
+        "suggestion of each kind with 1-2 (3) symbolic characters: the TextEdit's range is the LSP range of exactly the lint's span and "
+        "its new text is the replacement / nothing / the flagged text followed by the insertion, i.e. a client applying it obtains what "
+        "Suggestion::apply yields (decided under C03).",
+        "Outside the claim: Url / serde_json / RecordKind (stubbed in the edit kernel), the commands attached to a code action, ignore "
+        "lists, the server loop and the language front-ends of Backend::update_document (e.g. which content change of a didChange "
+        "notification is used).",
         "DESIGN.md section 4, C08"),
     "C11": (
         "Kernel decided by MIR symbolic execution (mirsym, z3): the real LintGroupConfig::{is_rule_enabled, set_rule_enabled, "
